@@ -195,6 +195,9 @@ def build(I, sort, hint):
         I.p.assume(n.t >= 0)
         fields = {}
         for k, kind in sort.fields.items():
+            if kind == 'any':
+                fields[k] = ('any', None)
+                continue
             es = z3.IntSort() if kind == 'dt' else sort_of(kind)
             fields[k] = (kind, z3.Const(I.p.fresh_name(f'{hint}_{k}'), z3.ArraySort(z3.IntSort(), es)))
         return SRecList(n, fields, I.repo.find(sort.cls) if isinstance(sort.cls, str) else sort.cls)
